@@ -40,34 +40,39 @@ theorem noGenericsB_sound (t : Tab) (h : noGenericsB t = true) : NoGenerics t.fa
       simp at this
     · rw [hn] at ho; cases ho
 
+theorem isSome_shape {v2 : Bool} {gn : GNode} (h : (shape v2 gn).isSome = true) : ∃ K kids, shape v2 gn = some (K, kids) := by
+  cases hs : shape v2 gn with
+  | none => rw [hs] at h; cases h
+  | some p => exact ⟨p.1, p.2, rfl⟩
+
 theorem wellFormedB_sound (v2 : Bool) (t : Tab) (h : wellFormedB v2 t = true) : WellFormed t.facts v2 := by
   simp only [wellFormedB, List.all_eq_true] at h
   refine ⟨?_, ?_⟩
   rotate_left
   · intro g ms hn
-    rcases node_cases t g with ⟨_, hm⟩ | ⟨_, ho⟩
-    · have := h _ hm
-      rw [hn] at this
-      simp only [Bool.and_eq_true, decide_eq_true_eq, List.all_eq_true] at this
-      refine ⟨this.1, fun m hmem => ?_⟩
-      have h2 := this.2 m hmem
-      cases hs : shape v2 (t.facts.node m.sig) with
-      | none => rw [hs] at h2; cases h2
-      | some p => exact ⟨p.1, p.2, rfl⟩
-    · rw [hn] at ho; cases ho
+    rcases hn with hn | ⟨und, tps, ou, hn⟩
+    · rcases node_cases t g with ⟨_, hm⟩ | ⟨_, ho⟩
+      · have := h _ hm
+        rw [hn] at this
+        simp only [Bool.and_eq_true, decide_eq_true_eq, List.all_eq_true] at this
+        exact ⟨this.1, fun m hmem => isSome_shape (this.2 m hmem)⟩
+      · rw [hn] at ho; cases ho
+    · rcases node_cases t g with ⟨_, hm⟩ | ⟨_, ho⟩
+      · have := h _ hm
+        rw [hn] at this
+        simp only [Bool.and_eq_true, decide_eq_true_eq, List.all_eq_true] at this
+        exact ⟨this.1.2, fun m hmem => isSome_shape (this.2 m hmem)⟩
+      · rw [hn] at ho; cases ho
   intro g und ms tps ou hn
   rcases node_cases t g with ⟨_, hm⟩ | ⟨_, ho⟩
   · have := h _ hm
     rw [hn] at this
     simp only [Bool.and_eq_true, Bool.or_eq_true] at this
-    obtain ⟨h1, h2⟩ := this
+    obtain ⟨⟨⟨h1, h2⟩, _⟩, _⟩ := this
     refine ⟨?_, ?_⟩
     · rcases h1 with h1 | h1
       · exact .inl h1
-      · right
-        cases hs : shape v2 (t.facts.node und) with
-        | none => rw [hs] at h1; cases h1
-        | some p => exact ⟨p.1, p.2, rfl⟩
+      · exact .inr (isSome_shape h1)
     · intro ha hsi
       cases hs : shape v2 (t.facts.node ou) with
       | none => simp [ha, hsi, hs] at h2
